@@ -205,3 +205,25 @@ Qed.
 Lemma nocopy_changes_view :
   view 1 (fst (run_boolExprSimplify_nocopy h_example 0)) 0 <> view 1 h_example 0.
 Proof. vm_compute. discriminate. Qed.
+
+(* ---- shallow copies ---- *)
+Lemma shallowCopy_frame h root : frame h (fst (run_shallowCopy h root)).
+Proof.
+  unfold run_shallowCopy. destruct (cells h root) as [n|]; [|apply frame_refl].
+  pose proof (alloc_frame h n) as HF. pose proof (alloc_fresh h n) as [HA _].
+  destruct (alloc h n) as [h1 c]. simpl in *. apply set_tag_fresh_frame; assumption.
+Qed.
+Lemma shallowCopy_repoint_frame h root arg : frame h (fst (run_shallowCopy_repoint h root arg)).
+Proof.
+  unfold run_shallowCopy_repoint. destruct (cells h root) as [n|]; [|apply frame_refl].
+  pose proof (alloc_frame h n) as HF. pose proof (alloc_fresh h n) as [HA _].
+  destruct (alloc h n) as [h1 c]. simpl in *. apply set_kids_fresh_frame; assumption.
+Qed.
+Definition h_example2 : heap :=
+  {| cells := fun j => if N.eqb j 0 then Some {| tag := 41; kids := [1%N] |}
+                       else if N.eqb j 1 then Some {| tag := 5; kids := [] |} else None; next := 2 |}.
+Lemma shallowCopy_through_breaks_frame : ~ frame h_example2 (fst (run_shallowCopy_through h_example2 0)).
+Proof.
+  intros [_ F]. specialize (F 1%N). assert (H : (1 < next h_example2)%N) by (simpl; lia).
+  specialize (F H). vm_compute in F. discriminate.
+Qed.
